@@ -673,6 +673,12 @@ func (ck *checker) evalQ(c *corpus, b built, q *Q, score string, want []Tri) {
 		}
 		extra := got[id]
 		class := classify(q, nested, score, extra, layoutName[layout])
+		if isShapeClass(class) {
+			// the shape explains the deviation only if it is the answer raw-id combination gives
+			if ra := rawPredict(q, c.trees[i]); ra.ok && ra.parentHit != got[id] {
+				class = unexplainedClass(q, extra, layoutName[layout])
+			}
+		}
 		d := c.docs[i]
 		ex := &example{cost: [3]int{q.nodes(), d.size(), len(q.String())}, key: q.String() + d.String() + score + layoutName[layout]}
 		if !ck.bk.improves(class, ex) {
